@@ -135,7 +135,7 @@ func (ps *PathState) decideAlts(alts []*smt.Term) int {
 	if ps.pos < len(ps.prefix) {
 		a := ps.prefix[ps.pos]
 		ps.pos++
-		if a >= len(alts) {
+		if a < 0 || a >= len(alts) {
 			panic(abort{AbortUnsupported, "replay divergence: decision arity changed"})
 		}
 		ps.Forced++
@@ -192,18 +192,16 @@ func (ps *PathState) decideAlts(alts []*smt.Term) int {
 	return chosen
 }
 
-// Concretize forks over the values lo..hi of s (inclusive); the remaining
-// alternative (outside the range) returns ok=false.
+// Concretize forks over the feasible values of s within lo..hi (inclusive);
+// the remaining alternative (outside the range) returns ok=false. The feasible
+// values are enumerated by the solver (model, block, repeat), so the cost is
+// proportional to the number of feasible values, not to the width of the range.
+// Decision entries: value-lo for an in-range value, -1 for out of range.
 func (ps *PathState) Concretize(s *sym, lo, hi int64) (int64, bool) {
 	c := ps.ctx
 	_, signed := kindBits(s.k)
-	var alts []*smt.Term
-	inRange := c.True()
-	for v := lo; v <= hi; v++ {
-		alts = append(alts, c.Eq(s.t, c.Const(s.t.Sort, uint64(v))))
-	}
-	// out-of-range alternative
 	loT, hiT := c.Const(s.t.Sort, uint64(lo)), c.Const(s.t.Sort, uint64(hi))
+	var inRange *smt.Term
 	if hi < lo {
 		inRange = c.False()
 	} else if signed {
@@ -211,13 +209,131 @@ func (ps *PathState) Concretize(s *sym, lo, hi int64) (int64, bool) {
 	} else {
 		inRange = c.And(c.Cmp(smt.OpULe, loT, s.t), c.Cmp(smt.OpULe, s.t, hiT))
 	}
-	alts = append(alts, c.Not(inRange))
-	// drop constant-false alternatives cheaply by keeping indexes
-	i := ps.decideAlts(alts)
-	if i == len(alts)-1 {
+	eqv := func(v int64) *smt.Term { return c.Eq(s.t, c.Const(s.t.Sort, uint64(v))) }
+	ps.Decisions++
+	if ps.pos < len(ps.prefix) {
+		a := ps.prefix[ps.pos]
+		ps.pos++
+		ps.Forced++
+		ps.taken = append(ps.taken, a)
+		if a < 0 {
+			ps.addPC(c.Not(inRange))
+			return 0, false
+		}
+		ps.addPC(eqv(lo + int64(a)))
+		return lo + int64(a), true
+	}
+	const maxVals = 300
+	var vals []int64
+	chosen := int64(-2) // -2 none, -1 out of range, >=0 value-lo
+	if ps.modelValid {
+		if ps.eval(inRange) == 1 {
+			v := int64(ps.eval(s.t))
+			if signed {
+				bits, _ := kindBits(s.k)
+				v = sextInt(uint64(v), bits)
+			}
+			vals = append(vals, v)
+			chosen = v - lo
+		} else {
+			chosen = -1
+		}
+	}
+	var newModel map[string]uint64
+	// enumerate (remaining) in-range values
+	if hi >= lo {
+		ps.solver.Push()
+		ps.solver.Assert(inRange)
+		for _, v := range vals {
+			ps.solver.Assert(c.Not(eqv(v)))
+		}
+		for {
+			r, err := ps.solver.Check()
+			if err != nil {
+				ps.solver.Pop()
+				panic(abort{AbortSolver, err.Error()})
+			}
+			if r == smt.Unknown {
+				ps.Unknowns++
+				break
+			}
+			if r == smt.Unsat {
+				break
+			}
+			m, err := ps.solver.Values(ps.ctx.Vars)
+			if err != nil {
+				ps.solver.Pop()
+				panic(abort{AbortSolver, err.Error()})
+			}
+			uv := smt.Eval(s.t, m, map[int]uint64{})
+			v := int64(uv)
+			if signed {
+				bits, _ := kindBits(s.k)
+				v = sextInt(uv, bits)
+			}
+			vals = append(vals, v)
+			if chosen == -2 {
+				chosen = v - lo
+				newModel = m
+			}
+			if len(vals) > maxVals {
+				ps.solver.Pop()
+				panic(abort{AbortUnwound, fmt.Sprintf("symbolic index/size with more than %d feasible values", maxVals)})
+			}
+			ps.solver.Assert(c.Not(eqv(v)))
+		}
+		ps.solver.Pop()
+	}
+	outFeasible := chosen == -1
+	if !outFeasible {
+		want := chosen == -2
+		r, m := ps.checkWith(c.Not(inRange), want)
+		if r == smt.Sat {
+			outFeasible = true
+			if chosen == -2 {
+				chosen = -1
+				newModel = m
+			}
+		} else if r == smt.Unknown {
+			ps.Unknowns++
+		}
+	}
+	if chosen == -2 {
+		panic(abort{AbortInfeasible, "no feasible value"})
+	}
+	push := func(a int) {
+		p := make([]int, len(ps.taken)+1)
+		copy(p, ps.taken)
+		p[len(ps.taken)] = a
+		ps.Pending = append(ps.Pending, p)
+	}
+	for _, v := range vals {
+		if v-lo != chosen {
+			push(int(v - lo))
+		}
+	}
+	if outFeasible && chosen != -1 {
+		push(-1)
+	}
+	ps.taken = append(ps.taken, int(chosen))
+	ps.pos++
+	if newModel != nil {
+		ps.model, ps.modelValid = newModel, true
+	}
+	if chosen == -1 {
+		ps.addPC(c.Not(inRange))
 		return 0, false
 	}
-	return lo + int64(i), true
+	ps.addPC(eqv(lo + chosen))
+	return lo + chosen, true
+}
+
+func sextInt(v uint64, bits int) int64 {
+	if bits >= 64 {
+		return int64(v)
+	}
+	sh := uint(64 - bits)
+	return int64(v<<sh) >> sh
 }
 
 // ---- inputs ----
